@@ -750,19 +750,36 @@ def ref_targets(body, op, _seen=None):
     return out
 
 
-def all_closures(facts, body):
-    """closure bodies nested (at any depth) in `body`"""
+def all_closures(facts, body, _seen=None):
+    """closure bodies nested (at any depth) in `body`: by def-path nesting and by construction (a closure aggregate in
+    the statements of `body`, which also covers closures of helpers that were inlined into `body`)"""
+    _seen = _seen if _seen is not None else set()
     out = []
-    for cb in facts.closures_of(body):
+    cands = list(facts.closures_of(body))
+    if not hasattr(facts, '_closure_ctor'):
+        facts._closure_ctor = {}
+    for bb, si, dp, ops, lhs in closure_aggregates(body):
+        cb = facts.closure_body(dp)
+        if cb is not None:
+            # remember where it is constructed: upvars resolve in THIS body (for an inlined helper: the caller)
+            prev = facts._closure_ctor.get(cb.npath)
+            if prev is None or (body.d.get('inlined') and not prev.d.get('inlined')):
+                facts._closure_ctor[cb.npath] = body
+            cands.append(cb)
+    for cb in cands:
+        if cb.npath in _seen:
+            continue
+        _seen.add(cb.npath)
         out.append(cb)
-        out.extend(all_closures(facts, cb))
+        out.extend(all_closures(facts, cb, _seen))
     return out
 
 
 def upvar_expr(facts, closure_body, k):
-    """expression (in the parent body) captured as upvar k of the closure"""
+    """expression (in the constructing body) captured as upvar k of the closure"""
     parent_path = norm(closure_body.d.get('parent', ''))
-    for pb in facts.get(parent_path):
+    ctor = getattr(facts, '_closure_ctor', {}).get(closure_body.npath)
+    for pb in ([ctor] if ctor is not None else []) + facts.get(parent_path):
         for bb, si, dp, ops, lhs in closure_aggregates(pb):
             if dp == closure_body.npath and k < len(ops):
                 return pb, ExprBuilder(pb).operand(ops[k])
@@ -1082,6 +1099,30 @@ def _closure_aggs(body):
     return closure_aggregates(body)
 
 
+def truth_facts(body, e, conds_at):
+    """facts implied by the bool expression e being TRUE (e may be a materialised `a && b`: phi(false | b) built on the
+    a==true side)"""
+    truth = True
+    while e.kind == 'un' and e.name == 'Not':
+        e = e.args[0]
+        truth = not truth
+    if e.kind == 'phi' and truth:
+        common = None
+        for a in e.args:
+            if a.kind == 'const' and a.const.get('v') is False:
+                continue
+            here = dict(conds_at(a.site[0])) if a.site else {}
+            here.update(truth_facts(body, a, conds_at))
+            common = here if common is None else {k: v for k, v in common.items() if k in here}
+        return common or {}
+    if e.kind == 'const':
+        return {}
+    cm = as_cmp(e, truth)
+    if cm:
+        return {'%s(%r,%r)' % cm: cm}
+    return {'bool:%s:%r' % (truth, e): ('bool', truth, e)}
+
+
 def necessary_keep_facts(body):
     """for a filter predicate (returns bool) or a filter_map body (returns Option): the facts that hold whenever the
     element is KEPT, plus the expression kept (for Option: the payload alternatives). -> (facts: {repr: fact}, payloads)"""
@@ -1120,16 +1161,7 @@ def necessary_keep_facts(body):
                     continue
                 elif a.kind == 'call' and a.name.rsplit('::', 1)[-1] in ('then_some', 'then'):
                     here = conds_at(d[1])
-                    c0 = a.args[0]
-                    truth = True
-                    while c0.kind == 'un' and c0.name == 'Not':
-                        c0 = c0.args[0]
-                        truth = not truth
-                    cm = as_cmp(c0, truth)
-                    if cm:
-                        here['%s(%r,%r)' % cm] = cm
-                    else:
-                        here['bool:%s:%r' % (truth, c0)] = ('bool', truth, c0)
+                    here.update(truth_facts(body, a.args[0], conds_at))
                     payloads.append(a.args[1] if len(a.args) > 1 else None)
                     common = here if common is None else {k: v for k, v in common.items() if k in here}
                 else:
@@ -1141,16 +1173,7 @@ def necessary_keep_facts(body):
             e = eb._call(c, (), 0)
             if c.name in ('then_some', 'then'):
                 here = conds_at(d[1])
-                c0 = e.args[0]
-                truth = True
-                while c0.kind == 'un' and c0.name == 'Not':
-                    c0 = c0.args[0]
-                    truth = not truth
-                cm = as_cmp(c0, truth)
-                if cm:
-                    here['%s(%r,%r)' % cm] = cm
-                else:
-                    here['bool:%s:%r' % (truth, c0)] = ('bool', truth, c0)
+                here.update(truth_facts(body, e.args[0], conds_at))
                 payloads.append(e.args[1] if len(e.args) > 1 else None)
                 common = here if common is None else {k: v for k, v in common.items() if k in here}
             elif c.name == 'from_residual':
